@@ -394,3 +394,229 @@ Example C05_example_entry_error :
      (B2Rf (opA FO0 a 3 false 0 k) * B2Rf (opB FO0 b 2 false k 0) = 0 \/
       / 2 ^ 1022 <= Rabs (B2Rf (opA FO0 a 3 false 0 k) * B2Rf (opB FO0 b 2 false k 0)))%R).
 Proof. exact matmul_error_example. Qed.
+
+(** ** Tie A: the models ARE the source (regenerated from /repo/src on every run by tools/tiea/matmul_loops.py).
+    [src_*] is the Rust function of src/linalg/utils.rs translated statement for statement: ONE flat row-major zero vector
+    accumulated in place ([c[i * n + j] += temp * b[k * n + j]]: [rs_get] / [rs_set], index arithmetic in [Z], a panic =
+    [None]); the model works on rows.  Hypothesis of each theorem: the result fits the address space ([vec![0.; m * n]]
+    passes the allocation's capacity check of 2^60 - 1 cells; the model has no such limit). *)
+From Coq Require Import ZArith QArith.
+From Compute Require Import Base.RsExpr Base.RsExprMut Generated.matmul_loops Proofs.TieA_matmul_loops.
+Local Close Scope R_scope. Local Close Scope Q_scope.
+(** the i-k-j nest, the shape asserts ([is_matrix(..).unwrap()] of both operands, a zero [rows_*], [assert_eq!] of the inner
+    dimensions), the three paths with at most one [transpose], and the both-transposed path through the RECURSIVE call
+    [matmul(b, a, rows_b, rows_a, false, false)] followed by [transpose] (the (B.A)^T identity).  [matmul_] is the abstract
+    parameter standing for the recursive call: it is instantiated by the generated function itself, applied to an ARBITRARY
+    [rec_] — the inner call has both flags false and never reaches the recursion again, so nothing is assumed about it. *)
+Theorem C05_model_is_source_matmul :
+  forall (T : Type) (O : Ops T) (rec_ : list T -> list T -> Z -> Z -> bool -> bool -> option (list T))
+         (a b : list T) (ra rb : nat) (ta tb : bool),
+    (Z.of_nat ((if ta then length a / ra else ra) * (if tb then rb else length b / rb)) <= 1152921504606846975)%Z ->
+    src_matmul O (fun a' b' ra' rb' ta' tb' => src_matmul O rec_ a' b' ra' rb' ta' tb') a b (Z.of_nat ra) (Z.of_nat rb) ta tb
+    = matmul O a b ra rb ta tb.
+Proof. exact @tiea_matmul. Qed.
+(** with at most one transpose flag the recursive call is not reached at all: any [rec_] *)
+Theorem C05_model_is_source_matmul_nt :
+  forall (T : Type) (O : Ops T) (rec_ : list T -> list T -> Z -> Z -> bool -> bool -> option (list T))
+         (a b : list T) (ra rb : nat) (ta tb : bool),
+    ta && tb = false ->
+    (Z.of_nat ((if ta then length a / ra else ra) * (if tb then rb else length b / rb)) <= 1152921504606846975)%Z ->
+    src_matmul O rec_ a b (Z.of_nat ra) (Z.of_nat rb) ta tb = matmul_nt O a b ra rb ta tb.
+Proof. exact @tiea_matmul_nt. Qed.
+(** the jj-kk-i-k-j nest with its [min] edges and the two divisions by [bsize] (a zero block size panics) *)
+Theorem C05_model_is_source_matmul_blocked :
+  forall (T : Type) (O : Ops T) (a b : list T) (ra rb : nat) (ta tb : bool) (bs : nat),
+    (Z.of_nat ((if ta then length a / ra else ra) * (if tb then rb else length b / rb)) <= 1152921504606846975)%Z ->
+    src_matmul_blocked O a b (Z.of_nat ra) (Z.of_nat rb) ta tb (Z.of_nat bs) = matmul_blocked O a b ra rb ta tb bs.
+Proof. exact @tiea_matmul_blocked. Qed.
+Theorem C05_model_is_source_xtx :
+  forall (T : Type) (O : Ops T) (rec_ : list T -> list T -> Z -> Z -> bool -> bool -> option (list T)) (x : list T) (k : nat),
+    (Z.of_nat ((length x / k) * (length x / k)) <= 1152921504606846975)%Z ->
+    src_xtx O rec_ x (Z.of_nat k) = xtx O x k.
+Proof. exact @tiea_xtx. Qed.
+(** the hypothesis is satisfiable and the equalities are not vacuous: a 2x3 by 3x2 product of rationals, all four flag
+    combinations that conform, plain and blocked, and a rejected call *)
+Example C05_model_is_source_example :
+  let a := [1; 2; 3; 4; 5; 6]%Q in let b := [7; 8; 9; 10; 11; 12]%Q in
+  src_matmul QO (fun a' b' ra' rb' ta' tb' => src_matmul QO (fun _ _ _ _ _ _ => None) a' b' ra' rb' ta' tb') a b 2 3 false false
+    = Some [58; 64; 139; 154]%Q /\
+  src_matmul QO (fun a' b' ra' rb' ta' tb' => src_matmul QO (fun _ _ _ _ _ _ => None) a' b' ra' rb' ta' tb') a b 3 2 true true
+    = matmul QO a b 3 2 true true /\
+  matmul QO a b 3 2 true true <> None /\
+  src_matmul_blocked QO a b 2 3 false false 2 = Some [58; 64; 139; 154]%Q /\
+  src_matmul_blocked QO a b 2 3 false false 0 = None /\
+  src_matmul QO (fun _ _ _ _ _ _ => None) a b 2 2 false false = None.
+Proof. vm_compute. repeat split; try reflexivity; discriminate. Qed.
+
+(** ** Tie A for the [Dot] trait (regenerated from src/linalg/array/dot.rs on every run by tools/tiea/dot_loops.py).
+    The macro bodies are translated statement for statement; a [Matrix] value of the generated text is the triple
+    [(nrows, ncols, data)] ([zmat] of the model's record), the fields of [self] are its first three arguments.  The abstract
+    parameters are instantiated by the models: [new_z] = [matrix_new] ([Matrix::new]: TryInto + match, outside the subset),
+    [matmul_z] = [matmul] (tied above), [transpose_z] = [transpose] (C11_model_is_source_transpose), [dot] (C04_model_is_source_dot),
+    and the inner method [$innerop] of the promotion wrappers = [inner_z k'] = [mat_mat_dot k'] for the [k'] the macro
+    invocation names ([append_inner] / [prepend_inner]: a transpose flag on the vector is ignored). *)
+From Compute Require Import Generated.dot_loops Proofs.TieA_dot_loops.
+Theorem C05_model_is_source_mat_mat_dot :
+  forall (T : Type) (O : Ops T) (s o : matrix (T := T)),
+    src_mat_mat_dot O (new_z) (matmul_z O) (dat s) (Z.of_nat (nr s)) (Z.of_nat (nc s)) (zmat o) = option_map zmat (mat_mat_dot O DotNN s o).
+Proof. exact @tiea_mat_mat_dot. Qed.
+Theorem C05_model_is_source_mat_mat_t_dot :
+  forall (T : Type) (O : Ops T) (s o : matrix (T := T)),
+    src_mat_mat_t_dot O (new_z) (matmul_z O) (dat s) (Z.of_nat (nr s)) (Z.of_nat (nc s)) (zmat o) = option_map zmat (mat_mat_dot O DotTN s o).
+Proof. exact @tiea_mat_mat_t_dot. Qed.
+Theorem C05_model_is_source_mat_mat_dot_t :
+  forall (T : Type) (O : Ops T) (s o : matrix (T := T)),
+    src_mat_mat_dot_t O (new_z) (matmul_z O) (dat s) (Z.of_nat (nr s)) (Z.of_nat (nc s)) (zmat o) = option_map zmat (mat_mat_dot O DotNT s o).
+Proof. exact @tiea_mat_mat_dot_t. Qed.
+Theorem C05_model_is_source_mat_mat_t_dot_t :
+  forall (T : Type) (O : Ops T) (s o : matrix (T := T)),
+    src_mat_mat_t_dot_t O (new_z) (matmul_z O) (dat s) (Z.of_nat (nr s)) (Z.of_nat (nc s)) (zmat o) = option_map zmat (mat_mat_dot O DotTT s o).
+Proof. exact @tiea_mat_mat_t_dot_t. Qed.
+(** promotion of a vector: [Vector::to_matrix] = [Matrix::new(self, 1, n)], [Matrix::t_mut] = transpose the data and swap the dimensions *)
+Theorem C05_model_is_source_to_matrix :
+  forall (T : Type) (O : Ops T) (v : list T), src_to_matrix O new_z v = option_map zmat (to_matrix v).
+Proof. exact @tiea_to_matrix. Qed.
+Theorem C05_model_is_source_t_mut :
+  forall (T : Type) (O : Ops T) (m : matrix (T := T)),
+    src_t_mut O (transpose_z O) (dat m) (Z.of_nat (nr m)) (Z.of_nat (nc m)) = option_map zfields (t_mut O m).
+Proof. exact @tiea_t_mut. Qed.
+(** Matrix . Vector, all four methods ([impl_dot_append_one]: the vector becomes a column) *)
+Theorem C05_model_is_source_mat_vec_dot :
+  forall (T : Type) (O : Ops T) (k : dotk) (s : matrix (T := T)) (v : list T),
+    src_dot_append_one O new_z (transpose_z O) (inner_z O (append_inner k)) (dat s) (Z.of_nat (nr s)) (Z.of_nat (nc s)) v = mat_vec_dot O k s v.
+Proof. exact @tiea_mat_vec_dot. Qed.
+(** Vector . Matrix, all four methods ([impl_dot_prepend_one]: the vector becomes a row) *)
+Theorem C05_model_is_source_vec_mat_dot :
+  forall (T : Type) (O : Ops T) (k : dotk) (v : list T) (o : matrix (T := T)),
+    src_dot_prepend_one O new_z (inner_z O (prepend_inner k)) v (zmat o) = vec_mat_dot O k v o.
+Proof. exact @tiea_vec_mat_dot. Qed.
+(** Vector . Vector, all four methods *)
+Theorem C05_model_is_source_vec_vec_dot :
+  forall (T : Type) (O : Ops T) (k : dotk) (v w : list T), src_dot_vec_vec O (dot O) v w = vec_vec_dot O k v w.
+Proof. exact @tiea_vec_vec_dot. Qed.
+(** ** Rounding error of every entry on binary64 WITHOUT the no-underflow hypothesis (extension)
+
+    A binary64 multiplication that does not overflow satisfies |fl(r) - r| <= 2^-53 |r| + 2^-1075 for EVERY exact product r, normal,
+    subnormal or zero (C04_rounding_error_binary64_general, from Flocq's [error_N_FLT]); additions need no absolute term.  The theorems
+    above are the special case in which no product underflows; the ones below bound EVERY finite entry:
+        | c_ij - Sigma_k a_ik b_kj |  <=  ((1 + 2^-53)^(l+1) - 1) * Sigma_k |a_ik b_kj|  +  l * 2^-1075 * (1 + 2^-53)^l . *)
+From Compute Require Import Proofs.C04ErrGen Proofs.C05ErrGen.
+Theorem C05_plain_sum_error_perturbed_abs_standard_model :
+  forall (u : R), (0 <= u)%R -> forall (eta : R), (0 <= eta)%R -> forall (F : R -> Prop) (rnd : R -> R),
+    F 0%R ->
+    (forall a b, F a -> F b -> F (rnd (a + b)%R) /\ (Rabs (rnd (a + b) - (a + b)) <= u * Rabs (a + b))%R) ->
+    forall c c' : list R, Forall F c' -> Forall2 (fun a a' => (Rabs (a' - a) <= u * Rabs a + eta)%R) c c' ->
+      (Rabs (fold_left (Ops.add (RndO rnd)) c' 0 - Rsum c)
+       <= ((1 + u) ^ S (length c) - 1) * Rsum (map Rabs c) + INR (length c) * eta * (1 + u) ^ length c)%R.
+Proof. exact (fun u Hu eta _ => plain_sum_error_perturbed_abs u Hu eta). Qed.
+
+Theorem C05_matmul_entry_error_binary64_general :
+  forall (tbl : libm_table) (a b : list float) (ra rb : nat) (ta tb : bool) (ca cb m l n : nat) (c : list float),
+    dims (length a) (length b) ra rb ta tb = Some (ca, cb, m, l, n) ->
+    matmul (FO tbl) a b ra rb ta tb = Some c ->
+    forall i j, i < m -> j < n ->
+      finite (nth (i * n + j) c (Ops.zero (FO tbl))) ->
+      (Rabs (B2Rf (nth (i * n + j) c (Ops.zero (FO tbl)))
+             - sumk RO (fun k => B2Rf (opA (FO tbl) a ca ta i k) * B2Rf (opB (FO tbl) b cb tb k j)) l)
+       <= ((1 + / 2 ^ 53) ^ S l - 1)
+          * sumk RO (fun k => Rabs (B2Rf (opA (FO tbl) a ca ta i k) * B2Rf (opB (FO tbl) b cb tb k j))) l
+          + INR l * / 2 ^ 1075 * (1 + / 2 ^ 53) ^ l)%R.
+Proof. exact matmul_entry_error_general. Qed.
+
+Theorem C05_matmul_blocked_entry_error_binary64_general :
+  forall (tbl : libm_table) (a b : list float) (ra rb : nat) (ta tb : bool) (bs : nat) (ca cb m l n : nat) (c : list float),
+    1 <= bs ->
+    dims (length a) (length b) ra rb ta tb = Some (ca, cb, m, l, n) ->
+    matmul_blocked (FO tbl) a b ra rb ta tb bs = Some c ->
+    forall i j, i < m -> j < n ->
+      finite (nth (i * n + j) c (Ops.zero (FO tbl))) ->
+      (Rabs (B2Rf (nth (i * n + j) c (Ops.zero (FO tbl)))
+             - sumk RO (fun k => B2Rf (opA (FO tbl) a ca ta i k) * B2Rf (opB (FO tbl) b cb tb k j)) l)
+       <= ((1 + / 2 ^ 53) ^ S l - 1)
+          * sumk RO (fun k => Rabs (B2Rf (opA (FO tbl) a ca ta i k) * B2Rf (opB (FO tbl) b cb tb k j))) l
+          + INR l * / 2 ^ 1075 * (1 + / 2 ^ 53) ^ l)%R.
+Proof. exact matmul_blocked_entry_error_general. Qed.
+
+(** the [Dot] trait: every finite entry of every Matrix.Matrix, Matrix.Vector and Vector.Matrix product (Vector.Vector is the 8-way
+    unrolled [dot]: C04_dot_error_binary64_general) *)
+Theorem C05_is_product_entry_error_binary64_general :
+  forall (tbl : libm_table) (swap : bool) (a b : list float) (ca cb : nat) (ta tb : bool) (m l n : nat) (c : list float),
+    is_product (FO tbl) swap a b ca cb ta tb m l n c ->
+    forall i j, i < m -> j < n ->
+      finite (nth (i * n + j) c (Ops.zero (FO tbl))) ->
+      (Rabs (B2Rf (nth (i * n + j) c (Ops.zero (FO tbl)))
+             - sumk RO (fun k => B2Rf (opA (FO tbl) a ca ta i k) * B2Rf (opB (FO tbl) b cb tb k j)) l)
+       <= ((1 + / 2 ^ 53) ^ S l - 1)
+          * sumk RO (fun k => Rabs (B2Rf (opA (FO tbl) a ca ta i k) * B2Rf (opB (FO tbl) b cb tb k j))) l
+          + INR l * / 2 ^ 1075 * (1 + / 2 ^ 53) ^ l)%R.
+Proof. exact is_product_entry_error_general. Qed.
+
+Theorem C05_is_matvec_entry_error_binary64_general :
+  forall (tbl : libm_table) (a : list float) (ca : nat) (ta : bool) (v : list float) (m l : nat) (c : list float),
+    is_matvec (FO tbl) a ca ta v m l c ->
+    forall i, i < m ->
+      finite (nth i c (Ops.zero (FO tbl))) ->
+      (Rabs (B2Rf (nth i c (Ops.zero (FO tbl)))
+             - sumk RO (fun k => B2Rf (opA (FO tbl) a ca ta i k) * B2Rf (nth k v (Ops.zero (FO tbl)))) l)
+       <= ((1 + / 2 ^ 53) ^ S l - 1)
+          * sumk RO (fun k => Rabs (B2Rf (opA (FO tbl) a ca ta i k) * B2Rf (nth k v (Ops.zero (FO tbl))))) l
+          + INR l * / 2 ^ 1075 * (1 + / 2 ^ 53) ^ l)%R.
+Proof. exact is_matvec_entry_error_general. Qed.
+
+Theorem C05_is_vecmat_entry_error_binary64_general :
+  forall (tbl : libm_table) (v b : list float) (cb : nat) (tb : bool) (l n : nat) (c : list float),
+    is_vecmat (FO tbl) v b cb tb l n c ->
+    forall j, j < n ->
+      finite (nth j c (Ops.zero (FO tbl))) ->
+      (Rabs (B2Rf (nth j c (Ops.zero (FO tbl)))
+             - sumk RO (fun k => B2Rf (nth k v (Ops.zero (FO tbl))) * B2Rf (opB (FO tbl) b cb tb k j)) l)
+       <= ((1 + / 2 ^ 53) ^ S l - 1)
+          * sumk RO (fun k => Rabs (B2Rf (nth k v (Ops.zero (FO tbl))) * B2Rf (opB (FO tbl) b cb tb k j))) l
+          + INR l * / 2 ^ 1075 * (1 + / 2 ^ 53) ^ l)%R.
+Proof. exact is_vecmat_entry_error_general. Qed.
+
+(** an instance the special case excludes: a 1x2 by 2x1 product whose first product 2^-600 * 2^-500 underflows; plain and blocked agree,
+    the entry is finite *)
+Example C05_example_entry_error_general :
+  let a := [0x1p-600; 3]%float in
+  let b := [0x1p-500; 0.5]%float in
+  dims (length a) (length b) 1 2 false false = Some (2, 1, 1, 2, 1) /\
+  (exists c, matmul FO0 a b 1 2 false false = Some c /\ matmul_blocked FO0 a b 1 2 false false 2 = Some c /\
+             finite (nth (0 * 1 + 0) c (Ops.zero FO0))) /\
+  ~ (forall k, k < 2 ->
+     (B2Rf (opA FO0 a 2 false 0 k) * B2Rf (opB FO0 b 1 false k 0) = 0 \/
+      / 2 ^ 1022 <= Rabs (B2Rf (opA FO0 a 2 false 0 k) * B2Rf (opB FO0 b 1 false k 0)))%R).
+Proof. exact matmul_general_example. Qed.
+
+(** one bound that contains both: the absolute term charges 2^-1075 only to the products that DO underflow ([underflow_cost r] is 0
+    when r = 0 or |r| >= 2^-1022 and 2^-1075 otherwise: C04_underflow_cost_def), so it vanishes under the hypothesis of
+    C05_matmul_entry_error_binary64 and is at most l * 2^-1075 always *)
+From Compute Require Import Proofs.C04ErrGenCount Proofs.C05ErrGenCount.
+Theorem C05_matmul_entry_error_binary64_counted :
+  forall (tbl : libm_table) (a b : list float) (ra rb : nat) (ta tb : bool) (ca cb m l n : nat) (c : list float),
+    dims (length a) (length b) ra rb ta tb = Some (ca, cb, m, l, n) ->
+    matmul (FO tbl) a b ra rb ta tb = Some c ->
+    forall i j, i < m -> j < n ->
+      finite (nth (i * n + j) c (Ops.zero (FO tbl))) ->
+      (Rabs (B2Rf (nth (i * n + j) c (Ops.zero (FO tbl)))
+             - sumk RO (fun k => B2Rf (opA (FO tbl) a ca ta i k) * B2Rf (opB (FO tbl) b cb tb k j)) l)
+       <= ((1 + / 2 ^ 53) ^ S l - 1)
+          * sumk RO (fun k => Rabs (B2Rf (opA (FO tbl) a ca ta i k) * B2Rf (opB (FO tbl) b cb tb k j))) l
+          + sumk RO (fun k => underflow_cost (B2Rf (opA (FO tbl) a ca ta i k) * B2Rf (opB (FO tbl) b cb tb k j))) l
+            * (1 + / 2 ^ 53) ^ l)%R.
+Proof. exact matmul_entry_error_counted. Qed.
+
+Theorem C05_matmul_blocked_entry_error_binary64_counted :
+  forall (tbl : libm_table) (a b : list float) (ra rb : nat) (ta tb : bool) (bs : nat) (ca cb m l n : nat) (c : list float),
+    1 <= bs ->
+    dims (length a) (length b) ra rb ta tb = Some (ca, cb, m, l, n) ->
+    matmul_blocked (FO tbl) a b ra rb ta tb bs = Some c ->
+    forall i j, i < m -> j < n ->
+      finite (nth (i * n + j) c (Ops.zero (FO tbl))) ->
+      (Rabs (B2Rf (nth (i * n + j) c (Ops.zero (FO tbl)))
+             - sumk RO (fun k => B2Rf (opA (FO tbl) a ca ta i k) * B2Rf (opB (FO tbl) b cb tb k j)) l)
+       <= ((1 + / 2 ^ 53) ^ S l - 1)
+          * sumk RO (fun k => Rabs (B2Rf (opA (FO tbl) a ca ta i k) * B2Rf (opB (FO tbl) b cb tb k j))) l
+          + sumk RO (fun k => underflow_cost (B2Rf (opA (FO tbl) a ca ta i k) * B2Rf (opB (FO tbl) b cb tb k j))) l
+            * (1 + / 2 ^ 53) ^ l)%R.
+Proof. exact matmul_blocked_entry_error_counted. Qed.
